@@ -62,7 +62,8 @@ type VerifC36Params struct {
 	// concurrently with the sequence; 7 (channel) and 8 (global): a first request is in
 	// flight while the whole sequence arrives (the peer withholds its real answer until
 	// then), and a SECOND request is issued afterwards - its result must be the peer's
-	// real answer (failure), never a reply left over from the first request's time.
+	// real answer (failure), never a reply left over from the first request's time; 9 / 10: as 7 / 8,
+	// and while the first request is waiting the body sends a request that wants NO reply.
 	Local int
 }
 
@@ -373,11 +374,11 @@ func VerifC36Run(p VerifC36Params) *VerifC36Result {
 		wg.Add(1)
 		go local()
 	}
-	if p.Local == 7 || p.Local == 8 {
+	if p.Local >= 7 && p.Local <= 10 {
 		wg.Add(1)
 		go func() {
 			defer wg.Done()
-			if p.Local == 7 {
+			if p.Local == 7 || p.Local == 9 {
 				O.SendRequest("first", true, nil)
 			} else {
 				m.SendRequest("first", true, nil)
@@ -402,12 +403,23 @@ func VerifC36Run(p VerifC36Params) *VerifC36Result {
 		wg.Add(1)
 		local() // sequential: every packet of the sequence has been processed
 	}
-	if p.Local == 7 || p.Local == 8 {
+	if p.Local == 9 || p.Local == 10 {
+		// while the first request is still waiting, another goroutine (here: the body) sends a
+		// request that wants NO reply; the first request's reply, which arrives afterwards,
+		// must still be delivered to it
+		if p.Local == 9 {
+			O.SendRequest("oneway", false, nil)
+		} else {
+			m.SendRequest("oneway", false, nil)
+		}
+		verifWaitIdle()
+	}
+	if p.Local >= 7 && p.Local <= 10 {
 		// now the peer's real answer to the first request (unless it closed the channel)
 		peerMu.Lock()
-		if p.Local == 7 && !peerClosed[100] {
+		if (p.Local == 7 || p.Local == 9) && !peerClosed[100] {
 			b.WritePacket(Marshal(channelRequestFailureMsg{PeersID: O.localId}))
-		} else if p.Local == 8 {
+		} else if p.Local == 8 || p.Local == 10 {
 			b.WritePacket(Marshal(globalRequestFailureMsg{Data: []byte("real")}))
 		}
 		peerMu.Unlock()
@@ -415,7 +427,7 @@ func VerifC36Run(p VerifC36Params) *VerifC36Result {
 		verifWaitIdle()
 		var ok bool
 		var err error
-		if p.Local == 7 {
+		if p.Local == 7 || p.Local == 9 {
 			ok, err = O.SendRequest("second", true, nil)
 		} else {
 			ok, _, err = m.SendRequest("second", true, nil)
